@@ -154,7 +154,13 @@ class CGenerator:
         rval_str = self._parenthesize_if(
             n.rvalue, lambda n: isinstance(n, c_ast.Assignment)
         )
-        return f"{self.visit(n.lvalue)} {n.op} {rval_str}"
+        # The left operand is a unary expression: an assignment or a comma
+        # expression (parenthesized by _visit_expr) standing there must have
+        # been written in parentheses.
+        lval_str = self._parenthesize_if(
+            n.lvalue, lambda n: isinstance(n, c_ast.Assignment)
+        )
+        return f"{lval_str} {n.op} {rval_str}"
 
     def visit_IdentifierType(self, n: c_ast.IdentifierType) -> str:
         return " ".join(n.names)
